@@ -17,9 +17,34 @@ def degreesOKb (ctx : Ctx) : Bool :=
   allDegrees.all fun d =>
     notAns d.baseScale.1 && notAns d.baseScale.2 &&
     match ctx.lookup d.baseScale.2, ctx.lookup d.baseScale.1 with
-    | some s, some b => s.unit == b.unit
+    | some s, some b => s.unit == b.unit && s.value != .rational 0
     | _, _ => false
 
 def substOKb (s : Substance) : Bool := s.props.all fun kp => kp.2.input.value != .rational 0
+
+mutual
+/-- executable form of `NoEmptyMul`: no product node without factors -/
+def noEmptyMulb : Expr → Bool
+  | .mul [] => false
+  | .mul (e :: es) => noEmptyMulb e && noEmptyMulListb es
+  | .binop _ l r => noEmptyMulb l && noEmptyMulb r
+  | .unary _ e => noEmptyMulb e
+  | .ofProp _ e => noEmptyMulb e
+  | _ => true
+def noEmptyMulListb : List Expr → Bool
+  | [] => true
+  | e :: es => noEmptyMulb e && noEmptyMulListb es
+end
+
+/-- the conversion target of a query, if it has one -/
+def conversionTarget : Query → Option Expr
+  | .convert _ (.expr bottom) _ _ => some bottom
+  | _ => none
+
+/-- executable form of `DefShowOK` -/
+def defShowOKb (ctx : Ctx) (name : String) : Bool :=
+  match expandAliases ctx 1000 name ((ctx.canonicalize name).getD name) with
+  | none => false
+  | some (n, _) => ctx.reg.isBaseUnit n || !ctx.reg.isQuantityName n || (ctx.reg.definition n).isSome
 
 end Rink.Spec.C04
